@@ -77,6 +77,7 @@ func configFor(r *mon.Run, kind string, stream uint64) walletlab.Config {
 		cfg.Workers, cfg.Phases, cfg.OpsEach = 1, 4, 10
 	case walletlab.KindRestartDefect:
 		cfg.Workers, cfg.Regime = 1, regimes[stream%2] // v2 or mix: the pool must take v2 transactions
+		cfg.Opts = walletlab.Opts{DefragThreshold: 30, MaxInputsForDefrag: 30, MaxDefragUTXOs: 10} // the package defaults
 		cfg.UTXOs = []int{3, 8, 20}[rng.IntN(3)]
 	case walletlab.KindExpiryShort:
 		cfg.Workers = 1
@@ -85,6 +86,18 @@ func configFor(r *mon.Run, kind string, stream uint64) walletlab.Config {
 	case walletlab.KindExpiryLong:
 		cfg.Workers = 1
 		cfg.UTXOs = []int{3, 8, 20}[rng.IntN(3)]
+	case walletlab.KindFundAll:
+		cfg.Workers = 1
+		cfg.Opts = walletlab.Opts{DefragThreshold: []int{0, 1, 3}[stream%3], MaxInputsForDefrag: 30, MaxDefragUTXOs: 10}
+		cfg.UTXOs = 1 + int(stream%3) + cfg.Opts.DefragThreshold
+	case walletlab.KindSplitV1Pool:
+		cfg.Workers, cfg.Regime = 1, []string{walletlab.RegimeV1, walletlab.RegimeMix}[stream%2]
+		cfg.Opts = walletlab.Opts{DefragThreshold: 30, MaxInputsForDefrag: 30, MaxDefragUTXOs: 10}
+		cfg.UTXOs = 3
+	case walletlab.KindCrossVersion:
+		cfg.Workers, cfg.Regime = 1, walletlab.RegimeMix
+		cfg.Opts = walletlab.Opts{DefragThreshold: 30, MaxInputsForDefrag: 30, MaxDefragUTXOs: 10}
+		cfg.UTXOs = 3
 	}
 	return cfg
 }
@@ -111,6 +124,7 @@ func (rn *runner) one(cfg walletlab.Config) []string {
 			continue
 		}
 		sigs = append(sigs, f.Sig)
+		r.Count("finding:"+f.Sig+"@"+cfg.Kind, 1)
 		r.Violation(f.Sig, f.What, cs, f.Detail)
 	}
 	if st.PorcupineUnknown {
@@ -232,6 +246,11 @@ func runC07(r *mon.Run, replay string) {
 	for i := 0; i < r.Pick(6, 18); i++ {
 		jobs = append(jobs, job{walletlab.KindExpiryShort, uint64(200000 + i)})
 		jobs = append(jobs, job{walletlab.KindExpiryLong, uint64(300000 + i)})
+	}
+	for i := 0; i < r.Pick(6, 18); i++ {
+		jobs = append(jobs, job{walletlab.KindFundAll, uint64(400000 + i)})
+		jobs = append(jobs, job{walletlab.KindSplitV1Pool, uint64(500000 + i)})
+		jobs = append(jobs, job{walletlab.KindCrossVersion, uint64(600000 + i)})
 	}
 	// the sleeping scenarios first so that their sleeps overlap other work
 	sort.SliceStable(jobs, func(a, b int) bool {
